@@ -235,6 +235,15 @@ func runScriptedPeer(c *simkit.Choice, r *simkit.Rec) {
 					sr.Expect = expFail
 				}
 				sr.Why = fmt.Sprintf("ClientHello version %04x", sr.Vers)
+				if sr.SMode != modeGM && c.Bool(2, 3, simkit.LFault) {
+					// offer RSA key-exchange TLS suites too, so that a TLS-capable server
+					// gets past suite selection with this version number
+					sr.Suites = []uint16{0x002f, 0x0035, 0x009c, sr.Suite}
+					sr.Why += " with TLS suites"
+					if sr.Vers == 0x0101 {
+						sr.Expect = expAny
+					}
+				}
 			case 1:
 				switch c.Choose(5, simkit.LFault) {
 				case 0:
@@ -463,6 +472,7 @@ func runScriptedPeer(c *simkit.Choice, r *simkit.Rec) {
 	switch {
 	case sr.VersSet:
 		r.Fault(idx(scriptFaults, "hello-version"))
+		r.SigStr(sr.Why)
 		r.Sig(uint64(sr.Vers))
 	case sr.Suites != nil:
 		r.Fault(idx(scriptFaults, "hello-suites"))
@@ -597,7 +607,10 @@ func runScriptedPeer(c *simkit.Choice, r *simkit.Rec) {
 	default:
 		// unspecified: consistency only — completion on one side only is a violation
 		if (eut.HsErr == nil) != (peerErr == nil && peerRes != nil && peerRes.Complete) {
-			if eut.HsErr == nil {
+			// the peer stopped by script (close/stall) after having sent everything the
+			// endpoint needed: completion is then legitimate
+			byScript := peerErr == reftls.ErrClosedByScript || peerErr == reftls.ErrStalled
+			if eut.HsErr == nil && !byScript {
 				r.Violate("completed-with-misbehaving-peer", site, fmt.Sprintf("endpoint completed but the reference peer did not (%v)", peerErr))
 				return
 			}
